@@ -1,4 +1,6 @@
 import Mdsort.Proofs.Mime
+import Mdsort.Proofs.AttachmentCond
+import Mdsort.Proofs.ExecStdin
 
 /-!
 # C11 - body and attachment conditions operate on the decoded MIME content
@@ -9,7 +11,9 @@ import Mdsort.Proofs.Mime
 line per the RFC 2046 subset mdsort documents.  Both are instantiated with the
 same entity reader (`Model.entity`: header lookup and entity parsing, whose own
 correctness is C08/C10).  How `attachment` conditions and blocks quantify over
-the parts, and that errors never count as a match, is in Props/C03.lean (evaluator).
+the parts, and that errors never count as a match, is `C11_attachment_cond` /
+`C11_attachment_block` below (against Spec/Attachment.lean); what an exec action
+receives on its standard input is `C11_exec_stdin` (against Spec/ExecStdin.lean).
 
 Hypothesis `Proofs.BoundaryOk` (an executable `Bool`, Proofs/Mime.lean): no multipart entity
 reached by the traversal announces a boundary containing a newline.  RFC 2046 boundaries never
@@ -84,6 +88,238 @@ example :
     (getAttachments C11_sample).map List.length = some 2 ∧
     (Spec.parts entity (Gen.mimeDepthLimit + 1) C11_sample).map List.length = some 2 ∧
     getBody C11_sample = some (ofString "hello!\n") := by
+  decide +kernel
+
+
+/-! ## C11_attachment_cond: how `attachment c` and `attachment { ... }` quantify over the parts
+
+`Spec.attachmentCond` / `Spec.attachmentBlock` (Spec/Attachment.lean) are stated on the trace of a
+for-each run over the parts (`Spec.partTrace`: every part in order, the state threaded); the
+evaluator's two loops (`expr_eval_attachment`, `expr_eval_attachment_block`) compute exactly that,
+for every environment, message, sub-expression, part index and state. -/
+
+/-- `attachment c`: a message whose MIME structure cannot be read (`getAttachments m = none`:
+missing terminator, bad boundary parameter, nesting deeper than `C11_depth_limit`) is an error
+and leaves the state alone - never a match.  Otherwise `c` is evaluated on the parts in order, the
+state threaded, up to the first part whose result is not "no match", and that result is returned.
+The index handed to the sub-evaluation is `Spec.partIndex part i` (`C11_part_index`). -/
+theorem C11_attachment_cond (env : Env) (root : Msg) (lno : Nat) (e : Expr) (part : Nat) (m : Msg) (st : St) :
+    eval env root (.attachment lno e) part m st =
+      match getAttachments m with
+      | none => (.error, st)
+      | some ps => Spec.attachmentCond (fun i p s => eval env root e (Spec.partIndex part i) p s) ps st :=
+  Proofs.eval_attachment_eq env root lno e part m st
+
+/-- `attachment { ... }`: error on an unreadable MIME structure; otherwise the block is evaluated
+on EVERY part in order unless it fails on one (then error at once), and the result is a match iff
+it matched on at least one part. -/
+theorem C11_attachment_block (env : Env) (root : Msg) (lno : Nat) (blk : Expr) (part : Nat) (m : Msg) (st : St) :
+    eval env root (.attBlock lno blk) part m st =
+      match getAttachments m with
+      | none => (.error, st)
+      | some ps => Spec.attachmentBlock (fun i p s => eval env root blk (Spec.partIndex part i) p s) ps st :=
+  Proofs.eval_attBlock_eq env root lno blk part m st
+
+/-- Parts of the message itself are numbered from 1 in table order; inside a part the index stays
+that of the enclosing part. -/
+theorem C11_part_index (i k : Nat) : Spec.partIndex 0 i = i + 1 ∧ Spec.partIndex (k + 1) i = k + 1 := ⟨rfl, rfl⟩
+
+/-- What `Spec.attachmentCond` means for the per-part results `t`: match iff some part matches and
+no earlier part is an error; error iff some part is an error and all earlier parts are no match;
+no match iff every part is no match (then every part was evaluated); a decided result carries the
+state of the deciding part, all earlier parts being no match. -/
+theorem C11_attachment_cond_meaning {σ α : Type} (f : Nat → α → σ → Tri × σ) (ps : List α) (s : σ) :
+    let t := Spec.partTrace f 0 ps s
+    let res := Spec.attachmentCond f ps s
+    (res.1 = .match ↔ ∃ as r bs, t = as ++ r :: bs ∧ r.1 = .match ∧ ∀ a ∈ as, a.1 ≠ .error) ∧
+    (res.1 = .error ↔ ∃ as r bs, t = as ++ r :: bs ∧ r.1 = .error ∧ ∀ a ∈ as, a.1 = .nomatch) ∧
+    (res.1 = .nomatch ↔ ∀ r ∈ t, r.1 = .nomatch) ∧
+    (res.1 = .nomatch → res.2 = Spec.lastState t s) ∧
+    (res.1 ≠ .nomatch → ∃ as bs, t = as ++ res :: bs ∧ ∀ a ∈ as, a.1 = .nomatch) :=
+  Proofs.attachmentCond_meaning f ps s
+
+/-- What `Spec.attachmentBlock` means: error iff the block fails on some part (the result is then
+that part's, every earlier part evaluated without error); otherwise every part was evaluated (the
+state is the one after the last part), match iff some part matched, no match iff none did. -/
+theorem C11_attachment_block_meaning {σ α : Type} (f : Nat → α → σ → Tri × σ) (ps : List α) (s : σ) :
+    let t := Spec.partTrace f 0 ps s
+    let res := Spec.attachmentBlock f ps s
+    (res.1 = .error ↔ ∃ r ∈ t, r.1 = .error) ∧
+    (res.1 = .error → ∃ as bs, t = as ++ res :: bs ∧ ∀ a ∈ as, a.1 ≠ .error) ∧
+    (res.1 = .match ↔ (∀ r ∈ t, r.1 ≠ .error) ∧ ∃ r ∈ t, r.1 = .match) ∧
+    (res.1 = .nomatch ↔ ∀ r ∈ t, r.1 = .nomatch) ∧
+    (res.1 ≠ .error → res.2 = Spec.lastState t s) :=
+  Proofs.attachmentBlock_meaning f ps s
+
+/-- With `C11_parts`: the parts quantified over are those of the MIME tree (`Spec.parts`). -/
+theorem C11_attachment_cond_mime (env : Env) (root : Msg) (lno : Nat) (e : Expr) (part : Nat) (m : Msg) (st : St)
+    (h : Proofs.BoundaryOk (Gen.mimeDepthLimit + 1) m = true) :
+    eval env root (.attachment lno e) part m st =
+      match Spec.parts entity (Gen.mimeDepthLimit + 1) m with
+      | none => (.error, st)
+      | some ps => Spec.attachmentCond (fun i p s => eval env root e (Spec.partIndex part i) p s) ps st :=
+  Proofs.eval_attachment_mime env root lno e part m st h
+
+theorem C11_attachment_block_mime (env : Env) (root : Msg) (lno : Nat) (blk : Expr) (part : Nat) (m : Msg) (st : St)
+    (h : Proofs.BoundaryOk (Gen.mimeDepthLimit + 1) m = true) :
+    eval env root (.attBlock lno blk) part m st =
+      match Spec.parts entity (Gen.mimeDepthLimit + 1) m with
+      | none => (.error, st)
+      | some ps => Spec.attachmentBlock (fun i p s => eval env root blk (Spec.partIndex part i) p s) ps st :=
+  Proofs.eval_attBlock_mime env root lno blk part m st h
+
+/-! ### Non-vacuity: the two-part `C11_sample` -/
+
+/-- A pattern matches the subjects it is a prefix of; the pattern `!` makes the engine fail. -/
+def C11_env : Env where
+  rx := fun p s => if p.src.isPrefixOf s then .ok [some (0, p.src.length)] else if p.src == [33] then .error else .nomatch
+  command := fun _ => 0
+  isDir := fun _ => false
+  now := 0
+  strptime := fun _ => none
+  zoneName := fun _ => none
+  fileTime := fun _ => none
+  dryrun := false
+  path := ofString "/m/new/1"
+
+def C11_st0 : St := { ml := [], flags := MFlags.empty }
+
+def C11_part1 : Msg := parseHeaders (ofString "Content-Type: text/html\n\n<p>hi</p>\n")
+def C11_part2 : Msg := parseHeaders (ofString "Content-Type: text/plain\n\nhello!\n")
+
+/-- The attachment table of the sample. -/
+theorem C11_sample_parts : getAttachments C11_sample = some [C11_part1, C11_part2] := by decide +kernel
+
+/-- `attachment body /hello/`: part 1 (text/html) does not match, part 2 (text/plain) does; the
+match entry is recorded for part number 2.  `attachment body /<p>/` stops at part 1.
+`attachment body /zzz/` looks at both parts and does not match.  `attachment body /!/` (the engine
+fails on part 1) is an error. -/
+example :
+    ((eval C11_env C11_sample (.attachment 1 (.body 1 { src := ofString "hello" })) 0 C11_sample C11_st0).1 = .match ∧
+     (eval C11_env C11_sample (.attachment 1 (.body 1 { src := ofString "hello" })) 0 C11_sample C11_st0).2.ml.map (·.part) = [2]) ∧
+    ((eval C11_env C11_sample (.attachment 1 (.body 1 { src := ofString "<p>" })) 0 C11_sample C11_st0).1 = .match ∧
+     (eval C11_env C11_sample (.attachment 1 (.body 1 { src := ofString "<p>" })) 0 C11_sample C11_st0).2.ml.map (·.part) = [1]) ∧
+    (eval C11_env C11_sample (.attachment 1 (.body 1 { src := ofString "zzz" })) 0 C11_sample C11_st0).1 = .nomatch ∧
+    (eval C11_env C11_sample (.attachment 1 (.body 1 { src := ofString "!" })) 0 C11_sample C11_st0).1 = .error := by
+  simp only [eval, eval.loop, C11_sample_parts]
+  decide +kernel
+
+/-- `attachment { match all exec stdin "cat" }` runs on both parts: two sentinel entries and two
+exec entries, for parts 1 and 2; `attachment { match body /hello/ discard }` matches although
+part 1 does not. -/
+example :
+    ((eval C11_env C11_sample (.attBlock 1 (.mtch 2 (.all 2) (.exec 2 true false [ofString "cat"]))) 0 C11_sample C11_st0).1 = .match ∧
+     (eval C11_env C11_sample (.attBlock 1 (.mtch 2 (.all 2) (.exec 2 true false [ofString "cat"]))) 0 C11_sample C11_st0).2.ml.map
+        (fun m => (m.ty, m.part)) = [(.mtch, 1), (.exec, 1), (.mtch, 2), (.exec, 2)]) ∧
+    (eval C11_env C11_sample (.attBlock 1 (.mtch 2 (.body 2 { src := ofString "hello" }) (.discard 2))) 0 C11_sample C11_st0).1 = .match ∧
+    (eval C11_env C11_sample (.attBlock 1 (.mtch 2 (.body 2 { src := ofString "!" }) (.discard 2))) 0 C11_sample C11_st0).1 = .error := by
+  simp only [eval, eval.loopB, C11_sample_parts]
+  decide +kernel
+
+/-- A multipart message without terminator: both forms are an error and nothing is recorded. -/
+def C11_unterminated : Msg := parseHeaders (ofString "Content-Type: multipart/mixed; boundary=\"b\"\n\n--b\nx\n")
+
+theorem C11_unterminated_parts : getAttachments C11_unterminated = none := by decide +kernel
+
+example :
+    (eval C11_env C11_unterminated (.attachment 1 (.all 1)) 0 C11_unterminated C11_st0).1 = .error ∧
+    (eval C11_env C11_unterminated (.attachment 1 (.all 1)) 0 C11_unterminated C11_st0).2.ml = [] ∧
+    (eval C11_env C11_unterminated (.attBlock 1 (.all 1)) 0 C11_unterminated C11_st0).1 = .error := by
+  simp only [eval, C11_unterminated_parts]
+  decide
+
+/-! ## C11_exec_stdin: what `message_get_fd` hands to exec
+
+`Model.messageGetFd` transcribes `message_get_fd` / `writefd` / `message_write` (message.c) as a
+program over libc calls; `runOracle` gives every call an ARBITRARY result.  `Spec.HandedOver`
+(Spec/ExecStdin.lean) says, on the trace of calls alone, which of the three sources the
+descriptor was filled from. -/
+
+/-- Whenever `message_get_fd` returns a descriptor `fd`: the last call is `lseek(fd, 0)` and it
+succeeded; no call before it failed; and before it
+(a) `stdin body`: `fd` is a fresh unlinked temporary file and the bytes it accepted through
+    `write` (of each write the `n` bytes taken) are exactly `cstr (getBody target)`, target = the
+    part if given, else the message - the decoded body of `C11_body`;
+(b) a part without `body`: `fd` is a fresh unlinked temporary file whose stdio duplicate was handed
+    exactly `(messageWrite part).1`, flushed, synced and closed;
+(c) otherwise `fd` is a duplicate of the message's own descriptor. -/
+theorem C11_exec_stdin (env : PEnv) (ms : MsgSt) (part : Option Msg) (dobody : Bool)
+    (orc : Nat → Call → Res) (i : Nat) (tr : List (Call × Res)) (fd : Handle)
+    (h : (runOracle orc (messageGetFd env ms part dobody) i tr).1 = some fd) :
+    ∃ L0 r, (runOracle orc (messageGetFd env ms part dobody) i tr).2 = tr ++ L0 ++ [(.lseek fd, r)] ∧
+      r.isErr = false ∧ (∀ x ∈ L0, Spec.failed x = false) ∧ Spec.HandedOver env ms part dobody fd L0 :=
+  Proofs.exec_stdin_handed_over env ms part dobody orc i tr fd h
+
+/-- A descriptor is returned iff the source is obtainable (decodable body, template within
+`PATH_MAX`, message descriptor present) and every call succeeds, writes being complete or short
+but positive. -/
+theorem C11_exec_stdin_delivered_iff (env : PEnv) (ms : MsgSt) (part : Option Msg) (dobody : Bool)
+    (orc : Nat → Call → Res) (i : Nat) (tr L : List (Call × Res))
+    (hL : (runOracle orc (messageGetFd env ms part dobody) i tr).2 = tr ++ L) :
+    (runOracle orc (messageGetFd env ms part dobody) i tr).1.isSome = true ↔
+      Spec.Obtainable env ms part dobody = true ∧ ∀ x ∈ L, Spec.failed x = false :=
+  Proofs.exec_stdin_delivered_iff env ms part dobody orc i tr L hL
+
+/-- Any failing call makes the result `none`; and whenever the result is `none`, the descriptor
+the run had obtained (temporary file or duplicate) was closed by its last call. -/
+theorem C11_exec_stdin_failure (env : PEnv) (ms : MsgSt) (part : Option Msg) (dobody : Bool)
+    (orc : Nat → Call → Res) (i : Nat) (tr L : List (Call × Res))
+    (hL : (runOracle orc (messageGetFd env ms part dobody) i tr).2 = tr ++ L) :
+    ((∃ x ∈ L, Spec.failed x = true) → (runOracle orc (messageGetFd env ms part dobody) i tr).1 = none) ∧
+    ((runOracle orc (messageGetFd env ms part dobody) i tr).1 = none →
+      ∀ fd, Spec.obtainedFd L = some fd → Spec.ClosedLast fd L) :=
+  Proofs.exec_stdin_failure env ms part dobody orc i tr L hL
+
+/-! ### Non-vacuity -/
+
+def C11_penv : PEnv :=
+  { now := 0, pid := 1, host := [], random := 0, tmpdir := ofString "/tmp", home := [], confpath := [],
+    dryrun := false, syntaxOnly := false, stdinMode := false }
+
+def C11_ms : MsgSt :=
+  { name := ofString "1", path := ofString "/m/new/1", fd := some 3, msg := C11_sample, parts := [],
+    flags := MFlags.empty, loc := none, content := [] }
+
+/-- Every call succeeds; `mkostemp` returns descriptor 7, a dup 8; every `write` takes at most 3 bytes. -/
+def C11_orcOk : Nat → Call → Res := fun _ c =>
+  match c with
+  | .mkostemp _ => .ok 7
+  | .dupfd _ => .ok 8
+  | .write _ d => .ok (min 3 d.length)
+  | _ => .ok 0
+
+/-- The same, but the third call (the first `write`, the `dup` of `message_write`) fails. -/
+def C11_orcFail : Nat → Call → Res := fun i c => if i == 2 then .err "EIO" else C11_orcOk i c
+
+/-- A base64 part: `aGVsbG8=` is `hello`. -/
+def C11_b64part : Msg := parseHeaders (ofString "Content-Transfer-Encoding: base64\n\naGVsbG8=\n")
+
+/-- (a) `stdin body` on the multipart/alternative sample: descriptor 7 received `hello!\n` (the
+text/plain part) in three short writes; on the base64 part it received `hello`. -/
+example :
+    (runOracle C11_orcOk (messageGetFd C11_penv C11_ms none true) 0 []).1 = some 7 ∧
+    Spec.written 7 (runOracle C11_orcOk (messageGetFd C11_penv C11_ms none true) 0 []).2 = ofString "hello!\n" ∧
+    (runOracle C11_orcOk (messageGetFd C11_penv C11_ms none true) 0 []).2.length = 6 ∧
+    (runOracle C11_orcOk (messageGetFd C11_penv C11_ms (some C11_b64part) true) 0 []).1 = some 7 ∧
+    Spec.written 7 (runOracle C11_orcOk (messageGetFd C11_penv C11_ms (some C11_b64part) true) 0 []).2 = ofString "hello" := by
+  decide +kernel
+
+/-- (b) a part without `body`: stream 8 was handed the re-serialised part; (c) the message:
+descriptor 8 is the duplicate of the message's descriptor 3, rewound. -/
+example :
+    (runOracle C11_orcOk (messageGetFd C11_penv C11_ms (some C11_b64part) false) 0 []).1 = some 7 ∧
+    Spec.printed 8 (runOracle C11_orcOk (messageGetFd C11_penv C11_ms (some C11_b64part) false) 0 []).2 =
+      ofString "Content-Transfer-Encoding: base64\n\naGVsbG8=\n" ∧
+    (runOracle C11_orcOk (messageGetFd C11_penv C11_ms none false) 0 []).1 = some 8 ∧
+    (runOracle C11_orcOk (messageGetFd C11_penv C11_ms none false) 0 []).2 = [(.dupfd 3, .ok 8), (.lseek 8, .ok 0)] := by
+  decide +kernel
+
+/-- A failing call: no descriptor, and descriptor 7 is closed by the last call. -/
+example :
+    (runOracle C11_orcFail (messageGetFd C11_penv C11_ms none true) 0 []).1 = none ∧
+    (runOracle C11_orcFail (messageGetFd C11_penv C11_ms none true) 0 []).2.getLast? = some (.close 7, .ok 0) ∧
+    (runOracle C11_orcFail (messageGetFd C11_penv C11_ms (some C11_b64part) false) 0 []).1 = none ∧
+    (runOracle C11_orcFail (messageGetFd C11_penv C11_ms (some C11_b64part) false) 0 []).2.getLast? = some (.close 7, .ok 0) := by
   decide +kernel
 
 end Mdsort.Props
